@@ -368,6 +368,27 @@ fn add_implicit_root_types(
     has_implicit_root_operation
 }
 
+/// An extension found before the definition of its type turns out to be of a different kind.
+/// Same diagnostic as when the extension comes after the definition.
+fn orphan_extension_kind_mismatch(
+    errors: &mut DiagnosticList,
+    extension: &ast::Definition,
+    type_name: &Name,
+    describe_def: &'static str,
+) {
+    if let Some(ext_name) = extension.name() {
+        errors.push(
+            ext_name.location(),
+            BuildError::TypeExtensionKindMismatch {
+                name: ext_name.clone(),
+                describe_ext: extension.describe(),
+                def_location: type_name.location(),
+                describe_def,
+            },
+        )
+    }
+}
+
 fn adopt_type_extensions(
     errors: &mut DiagnosticList,
     type_name: &Name,
@@ -528,6 +549,8 @@ impl ScalarType {
         for def in &extensions {
             if let ast::Definition::ScalarTypeExtension(ext) = def {
                 ty.extend_ast(errors, ext)
+            } else {
+                orphan_extension_kind_mismatch(errors, def, &definition.name, "a scalar type")
             }
         }
         definition.same_location(ty)
@@ -596,6 +619,8 @@ impl ObjectType {
         for def in &extensions {
             if let ast::Definition::ObjectTypeExtension(ext) = def {
                 ty.extend_ast(errors, ext)
+            } else {
+                orphan_extension_kind_mismatch(errors, def, &definition.name, "an object type")
             }
         }
         definition.same_location(ty)
@@ -696,6 +721,8 @@ impl InterfaceType {
         for def in &extensions {
             if let ast::Definition::InterfaceTypeExtension(ext) = def {
                 ty.extend_ast(errors, ext)
+            } else {
+                orphan_extension_kind_mismatch(errors, def, &definition.name, "an interface type")
             }
         }
         definition.same_location(ty)
@@ -781,6 +808,8 @@ impl UnionType {
         for def in &extensions {
             if let ast::Definition::UnionTypeExtension(ext) = def {
                 ty.extend_ast(errors, ext)
+            } else {
+                orphan_extension_kind_mismatch(errors, def, &definition.name, "a union type")
             }
         }
         definition.same_location(ty)
@@ -852,6 +881,8 @@ impl EnumType {
         for def in &extensions {
             if let ast::Definition::EnumTypeExtension(ext) = def {
                 ty.extend_ast(errors, ext)
+            } else {
+                orphan_extension_kind_mismatch(errors, def, &definition.name, "an enum type")
             }
         }
         definition.same_location(ty)
@@ -921,6 +952,8 @@ impl InputObjectType {
         for def in &extensions {
             if let ast::Definition::InputObjectTypeExtension(ext) = def {
                 ty.extend_ast(errors, ext)
+            } else {
+                orphan_extension_kind_mismatch(errors, def, &definition.name, "an input object type")
             }
         }
         definition.same_location(ty)
